@@ -67,6 +67,8 @@ def build_corpus(tier, rng):
     items.append(("raw-enum-name", Item("r#type", [Variant("Alpha", "unit"), Variant("Beta", "unit", [], [DISABLED]), Variant("Gamma", "unit", [], [ser("g")])])))
     items.append(("raw-enum-name", Item("r#match", [Variant("Alpha", "tuple", [Field("u8")]), Variant("Beta", "unit"), Variant("r#loop", "named", [Field("i32", "a")])])))
     # two variants with the SAME canonical name: every list still has one entry per variant
+    for bf in G.bound_free_items():
+        items.append(("bound-free-parameter", bf))
     items.append(("samename", Item("E", [Variant("HTTPServer", "unit"), Variant("HttpServer", "unit"), Variant("Other", "unit")], metas=[EM("sall", "kebab-case")])))
     items.append(("samename", Item("E", [Variant("Crimson", "unit", [], [ser("Red")]), Variant("Red", "unit"), Variant("Blue", "tuple", [Field("u8")], [tos("Red")])])))
     items.append(("samename", Item("E", [Variant("A", "unit", [], [tos("x")]), Variant("B", "unit", [], [tos("x"), DISABLED]), Variant("C", "unit", [], [tos("x")])], metas=[EM("prefix", "p")])))
